@@ -194,6 +194,9 @@ func failOf(a *Action) (string, int) {
 	return "none", 0
 }
 
+// concrete spellings of the model's abstract ids: ids are opaque strings to the filter, including padded ones
+var idSpelling = map[string]string{"x": " x", "y": "y\n", "z": "Z-\u00fc ", "": ""}
+
 func (w *world) apply(a *Action) outcome {
 	ctx := context.Background()
 	c := w.c
@@ -223,7 +226,10 @@ func (w *world) apply(a *Action) outcome {
 		if a.Probe {
 			ord = 99
 		}
-		id := a.ID
+		id, ok := idSpelling[a.ID]
+		if !ok {
+			id = a.ID
+		}
 		if a.A == "noid" {
 			id = ""
 		}
